@@ -2,6 +2,7 @@ package main
 
 import (
 	"fmt"
+	"go/constant"
 	"go/token"
 	"go/types"
 	"strings"
@@ -1723,4 +1724,222 @@ func ruleRNG2(c *Ctx) []Ob {
 		o.add(UNDECIDED, "range-scan", "-", "no range scan function with a direction flag found")
 	}
 	return o.list
+}
+
+// ---------------------------------------------------------------- ADP6 / ADP7
+
+// ADP6: every store.Tx.Commit implementation returns the result of the backend's
+// synchronous commit. An asynchronous / callback commit, or a constant nil,
+// acknowledges an operation before the store has decided it.
+func ruleADP6(c *Ctx) []Ob {
+	o := newObs(c, "ADP6")
+	syncCommit := map[string]bool{
+		"(*go.etcd.io/bbolt.Tx).Commit":                true,
+		"(*github.com/dgraph-io/badger/v4.Txn).Commit": true,
+	}
+	for _, fn := range c.storeImpls("Tx", "Commit") {
+		key := c.fname(fn) + "/returns the backend's synchronous Commit"
+		pos := relPath(c, fn.Pos())
+		bad := ""
+		n := 0
+		for _, ret := range returnsOf(fn) {
+			rv, ok := returnedValue(ret, 0)
+			if !ok {
+				continue
+			}
+			for _, og := range origins(rv) {
+				n++
+				call, isCall := og.(*ssa.Call)
+				if !isCall || !syncCommit[calleeFullName(call)] {
+					bad = "returns " + describeValue(c, og)
+				}
+			}
+		}
+		allCalls(fn, func(call ssa.CallInstruction) {
+			if strings.HasSuffix(calleeFullName(call), ".CommitWith") {
+				bad = "commits asynchronously (CommitWith)"
+			}
+		})
+		if bad != "" || n == 0 {
+			o.add(VIOLATED, key, pos, "%s: the caller is told the transaction committed before the backend has accepted and logged it - a conflict or a crash right after loses an acknowledged operation", bad)
+		} else {
+			o.add(OK, key, pos, "the adapter's Commit is the backend's synchronous Commit")
+		}
+	}
+	return o.list
+}
+
+// ADP7: the adapters do not switch off the backend guarantees clover relies on:
+// badger conflict detection (WithDetectConflicts(false), managed transactions),
+// bbolt fsync on commit (NoSync / NoFreelistSync / NoGrowSync).
+func ruleADP7(c *Ctx) []Ob {
+	o := newObs(c, "ADP7")
+	n := 0
+	for _, fn := range c.LibFuncs {
+		if !strings.HasPrefix(c.pkgRel(fn), "store/") {
+			continue
+		}
+		allCalls(fn, func(call ssa.CallInstruction) {
+			full := calleeFullName(call)
+			if !strings.HasPrefix(full, "(github.com/dgraph-io/badger/v4.Options).With") {
+				return
+			}
+			n++
+			name := full[strings.LastIndex(full, ".")+1:]
+			key := c.fname(fn) + "/badger option " + name
+			args := call.Common().Args
+			switch name {
+			case "WithDetectConflicts":
+				if bv, ok := constBool(args[len(args)-1]); !ok || !bv {
+					o.add(VIOLATED, key, relPath(c, call.Pos()), "badger conflict detection is switched off: two overlapping write transactions both commit, the later one overwriting the earlier from a stale snapshot (lost updates, stale collection size)")
+					return
+				}
+			case "WithManagedTxns":
+				o.add(VIOLATED, key, relPath(c, call.Pos()), "managed transactions bypass badger's own timestamping and conflict handling")
+				return
+			}
+			o.add(OK, key, relPath(c, call.Pos()), "does not weaken transaction semantics")
+		})
+		for _, b := range fn.Blocks {
+			for _, in := range b.Instrs {
+				st, ok := in.(*ssa.Store)
+				if !ok {
+					continue
+				}
+				_, f, nm := fieldOfAddr(st.Addr)
+				if nm == nil || namedPkgPath(nm) != "go.etcd.io/bbolt" {
+					continue
+				}
+				switch f {
+				case "NoSync", "NoFreelistSync", "NoGrowSync":
+					n++
+					if bv, ok := constBool(st.Val); !ok || bv {
+						o.add(VIOLATED, c.fname(fn)+"/bbolt "+f, relPath(c, st.Pos()), "bbolt is configured with %s: commits are acknowledged without being synced", f)
+					}
+				}
+			}
+		}
+	}
+	o.add(OK, "adapter configuration", "-", "%d backend configuration sites inspected; defaults otherwise (badger detects conflicts, bbolt syncs on commit)", n)
+	return o.list
+}
+
+// ---------------------------------------------------------------- IDX7
+
+// IDX7: the catalog record written back is the one read in this transaction. A
+// function that has read the collection's record and then writes a freshly
+// built one resets every field it does not copy (the document counter, the
+// index list).
+func ruleIDX7(c *Ctx) []Ob {
+	o := newObs(c, "IDX7")
+	r := c.Roles()
+	for _, fn := range c.LibFuncs {
+		if c.pkgRel(fn) != "" {
+			continue
+		}
+		readsRecord := false
+		allCalls(fn, func(call ssa.CallInstruction) {
+			g := staticCallee(call)
+			if g == nil {
+				return
+			}
+			g = c.declared(g)
+			if r.isMetaReader(g) && g.Signature.Results().Len() > 0 && c.isMetaPtr(g.Signature.Results().At(0).Type()) {
+				readsRecord = true
+			}
+		})
+		allCalls(fn, func(call ssa.CallInstruction) {
+			if !c.callsMetaWriter(call) {
+				return
+			}
+			var metaArg ssa.Value
+			for _, a := range call.Common().Args {
+				if c.isMetaPtr(a.Type()) {
+					metaArg = a
+				}
+			}
+			if metaArg == nil {
+				return
+			}
+			key := c.fname(fn) + "/writes back the record it read"
+			pos := relPath(c, call.Pos())
+			fresh := false
+			for _, og := range c.paramSources(metaArg, 0) {
+				if _, isAlloc := og.(*ssa.Alloc); isAlloc {
+					fresh = true
+				}
+			}
+			switch {
+			case fresh && readsRecord:
+				o.add(VIOLATED, key, pos, "the collection's catalog record is read in this function but a freshly built record is written back: fields that are not copied (the document counter, other indexes) are reset, so Count no longer matches the stored documents")
+			case fresh:
+				o.add(OK, key, pos, "a new record is written where none was read (collection creation)")
+			default:
+				o.add(OK, key, pos, "the record written is the one obtained from the catalog")
+			}
+		})
+	}
+	return o.list
+}
+
+// ---------------------------------------------------------------- SKIP1
+
+// SKIP1: a negative skip is ignored: abstractly evaluating Query.Skip with a
+// negative argument stores nothing into the query's skip field (the query is
+// returned unchanged); zero and positive values are stored as given.
+func ruleSKIP1(c *Ctx) []Ob {
+	o := newObs(c, "SKIP1")
+	skip := c.lookupMethod("query", "Query", "Skip")
+	getSkip := c.lookupMethod("query", "Query", "GetSkip")
+	if skip == nil || getSkip == nil {
+		o.add(UNDECIDED, "Query.Skip", "-", "not found")
+		return o.list
+	}
+	// the field GetSkip returns
+	field := ""
+	for _, ret := range returnsOf(getSkip) {
+		if rv, ok := returnedValue(ret, 0); ok {
+			if _, f, _ := fieldLoad(rv); f != "" {
+				field = f
+			}
+		}
+	}
+	if field == "" {
+		o.add(UNDECIDED, "Query.Skip", relPath(c, getSkip.Pos()), "skip field not identified")
+		return softenUndecided(o.list)
+	}
+	for _, n := range []int64{-1, 0, 1} {
+		n := n
+		te := c.newTagEval()
+		var stored []string
+		te.storeObs = func(st *ssa.Store, v aval, _ func(ssa.Value) aval) {
+			if _, f, nm := fieldOfAddr(st.Addr); f == field && nm != nil && c.libNamedIs(nm, "query", "Query") {
+				stored = append(stored, v.String())
+			}
+		}
+		// evaluate Skip and the copy helper it calls
+		te.Eval(skip, []aval{{K: aConst}, {K: aConst, C: constant.MakeInt64(n)}}, 0)
+		key := fmt.Sprintf("Query.Skip(%d)", n)
+		neg := false
+		pos := false
+		for _, sv := range stored {
+			if sv == fmt.Sprintf("const %d", n) {
+				pos = true
+				if n < 0 {
+					neg = true
+				}
+			}
+		}
+		switch {
+		case n < 0 && neg:
+			o.add(VIOLATED, key, relPath(c, skip.Pos()), "a negative skip is stored into the query instead of being ignored: it cancels an earlier Skip when chained and makes the counter shortcut of Count add documents (size - skip)")
+		case n < 0:
+			o.add(OK, key, relPath(c, skip.Pos()), "ignored: nothing negative is stored")
+		case !pos:
+			o.add(UNDECIDED, key, relPath(c, skip.Pos()), "the value is not stored as given (stores seen: %v)", stored)
+		default:
+			o.add(OK, key, relPath(c, skip.Pos()), "stored as given")
+		}
+	}
+	return softenUndecided(o.list)
 }
